@@ -49,7 +49,7 @@ func richProgram() *idl.Program {
 		{Service: &idl.Service{Name: "Zsvc", Extends: "alpha.Basealpha", Methods: []*idl.Method{{Name: "one", Ret: T("Big"), Args: []*idl.Field{fld(1, "p", "default", T("Pick"))}, Throws: []*idl.Field{fld(1, "o", "default", T("Oops")), fld(2, "e", "default", T("mid.Errmid"))}}, {Name: "two", Oneway: true}}}},
 		{Service: &idl.Service{Name: "Asvc", Methods: []*idl.Method{{Name: "three", Args: []*idl.Field{fld(1, "k", "default", T("zeta.Kindzeta"))}}}}},
 		{Service: &idl.Service{Name: "Msvc", Extends: "Asvc", Methods: []*idl.Method{{Name: "four", Ret: T("TB")}}}},
-		{Scope: &idl.Scope{Name: "Zevents", Prefix: "z.{user}.{org}", Ops: []*idl.Op{{Name: "Made", Type: T("Big")}, {Name: "Gone", Type: T("alpha.Thingalpha")}}}},
+		{Scope: &idl.Scope{Name: "Zevents", Prefix: "z.{user}.{org}", Ops: []*idl.Op{{Name: "Made", Type: T("Big")}, {Name: "Gone", Type: T("alpha.Thingalpha")}, {Name: "Left", Type: T("zeta.Thingzeta")}, {Name: "Back", Type: T("mid.Thingmid")}}}},
 		{Scope: &idl.Scope{Name: "Aevents", Ops: []*idl.Op{{Name: "Seen", Type: T("Pick")}}}},
 		{Scope: &idl.Scope{Name: "Mevents", Prefix: "m", Ops: []*idl.Op{{Name: "Heard", Type: T("zeta.Thingzeta")}}}},
 	}}
